@@ -1,66 +1,18 @@
-import Kvql.Model.Lexer
-import Kvql.Spec.Lex
-import Kvql.Model.Errors
-import Kvql.Model.Limit
+import Driver.Basic
+import Driver.Handlers
 
-open Kvql
-
-def tokStr (t : Token) : String :=
-  s!"{t.tp}:{Bytes.toHex t.data}:{t.pos}"
-
-def parseChunks (s : String) : Option (List (List Nat)) :=
-  if s == "-" then some [] else
-  let sizes := (s.splitOn ",").map String.toNat?
-  if sizes.any Option.isNone then none else
-  let rec go (start : Nat) : List Nat → List (List Nat)
-    | [] => []
-    | n :: ns => (List.range n).map (· + start) :: go (start + n) ns
-  some (go 0 (sizes.map (·.getD 0)))
-
-def showRows (rs : List Nat) : String := ",".intercalate (rs.map toString)
-def showBatches (bs : List (List Nat)) : String :=
-  if bs.isEmpty then "-" else "|".intercalate (bs.map showRows)
-
+/-- every group contributes one handler (`Driver/Handlers.lean` lists them); the first that
+    recognises the line answers -/
 def handle (line : String) : String :=
-  match line.splitOn " " with
-  | ["LEX", h] =>
-    match Bytes.ofHex h with
-    | some q => " ".intercalate ((Lexer.split q).map tokStr)
-    | none => "bad-hex"
-  | ["LEXBOTH", h] =>
-    match Bytes.ofHex h with
-    | some q => " ".intercalate ((Lexer.split q).map tokStr) ++ " ## " ++ " ".intercalate ((Spec.lex q).map tokStr)
-    | none => "bad-hex"
-  | ["LEXSPEC", h] =>
-    match Bytes.ofHex h with
-    | some q => " ".intercalate ((Spec.lex q).map tokStr)
-    | none => "bad-hex"
-  | ["ERRFMT", h, p, a] =>
-    match Bytes.ofHex h, p.toInt?, a.toNat? with
-    | some q, some pi, some ad =>
-      -- Go: -1 is end of input; other negative positions are clamped to 0 by the code
-      let pos : Option Nat := if pi == -1 then none else some pi.toNat
-      Bytes.toHex (Errors.renderText q pos ad)
-    | _, _, _ => "bad-args"
-  | ["LIMIT", mode, st, cn, bs, ch] =>
-    match st.toNat?, cn.toNat?, bs.toNat?, parseChunks ch with
-    | some start, some count, some bsz, some chunks =>
-      let flat := chunks.flatten
-      let spec := (flat.drop start).take count
-      let fuel := flat.length + chunks.length + 3
-      let model :=
-        if mode == "next" then
-          let out := Limit.drainNext start count fuel {} flat
-          if out.isEmpty then "-" else showRows out
-        else showBatches (Limit.drainBatch start count bsz fuel {} chunks)
-      model ++ " ## " ++ (if spec.isEmpty then "-" else showRows spec)
-    | _, _, _, _ => "bad-args"
-  | _ => "bad-op"
+  let words := line.splitOn " "
+  match (Driver.handleBasic :: Driver.handlers).findSome? (fun h => h words) with
+  | some r => r
+  | none => "bad-op"
 
 partial def loop (hin hout : IO.FS.Stream) : IO Unit := do
   let line ← hin.getLine
   if line.isEmpty then return ()
-  let l := ((line.dropEndWhile (fun c => c == '\n' || c == '\r')).toString)
+  let l := (line.dropEndWhile (fun c => c == '\n' || c == '\r')).toString
   hout.putStrLn (handle l)
   hout.flush
   loop hin hout
